@@ -23,6 +23,12 @@ const MaxImportRecursionDepth = 10
 var namespaceNameRegex = regexp.MustCompile(`^[A-Z][a-zA-Z0-9]*$`)
 var versionLabelRegex = regexp.MustCompile(`^[a-zA-Z][a-zA-Z0-9]*(_[a-zA-Z0-9]+)*$`)
 
+// IsValidNamespace reports whether the given string can be used as the
+// 'namespace' field of a package.
+func IsValidNamespace(namespace string) bool {
+	return namespaceNameRegex.MatchString(namespace)
+}
+
 type PackageInfo struct {
 	FilePath  string `yaml:"-"`
 	Namespace string `yaml:"namespace"`
